@@ -158,6 +158,61 @@ impl BigUint {
         }
         v
     }
+    /// self * 2^k
+    pub fn shl(&self, k: u32) -> BigUint {
+        if self.is_zero() {
+            return BigUint::zero();
+        }
+        let words = (k / 32) as usize;
+        let bits = k % 32;
+        let mut limbs = vec![0u32; words];
+        if bits == 0 {
+            limbs.extend_from_slice(&self.limbs);
+        } else {
+            let mut carry = 0u32;
+            for l in &self.limbs {
+                limbs.push((l << bits) | carry);
+                carry = l >> (32 - bits);
+            }
+            if carry != 0 {
+                limbs.push(carry);
+            }
+        }
+        let mut r = BigUint { limbs };
+        r.normalize();
+        r
+    }
+    /// self * 10^n
+    pub fn mul_pow10(&self, mut n: u32) -> BigUint {
+        let mut r = self.clone();
+        while n >= 9 {
+            r.mul_small_add(1_000_000_000, 0);
+            n -= 9;
+        }
+        if n > 0 {
+            r.mul_small_add(10u32.pow(n), 0);
+        }
+        r
+    }
+    /// Parse ASCII decimal digits (no sign, no separators); `None` on any other character.
+    pub fn from_decimal(digits: &str) -> Option<BigUint> {
+        let mut r = BigUint::zero();
+        let b = digits.as_bytes();
+        let mut i = 0;
+        while i < b.len() {
+            let n = (b.len() - i).min(9);
+            let mut chunk = 0u32;
+            for &c in &b[i..i + n] {
+                if !c.is_ascii_digit() {
+                    return None;
+                }
+                chunk = chunk * 10 + (c - b'0') as u32;
+            }
+            r.mul_small_add(10u32.pow(n as u32), chunk);
+            i += n;
+        }
+        Some(r)
+    }
     /// Digits in `radix` (2..=36), most significant first, no prefix; "0" for zero.
     pub fn to_radix(&self, radix: u32, upper: bool) -> String {
         if self.is_zero() {
@@ -656,6 +711,194 @@ pub fn ref_float(text: &str) -> Option<FloatReading> {
     None
 }
 
+// --------------------------------------------------------------------- exact rounding check
+
+/// Binary floating-point format description for [`decimal_rounds_to`].
+#[derive(Clone, Copy, Debug)]
+pub struct FloatFormat {
+    /// explicit fraction bits (52 for f64, 23 for f32)
+    pub frac_bits: u32,
+    /// exponent field bits (11 / 8)
+    pub exp_bits: u32,
+}
+pub const F64_FORMAT: FloatFormat = FloatFormat { frac_bits: 52, exp_bits: 11 };
+pub const F32_FORMAT: FloatFormat = FloatFormat { frac_bits: 23, exp_bits: 8 };
+
+/// Split a decimal literal that satisfies the float grammar into
+/// (negative, integer digit string without the point, decimal exponent) so that
+/// the value is `digits * 10^exp`. `None` when the exponent literal is absurdly
+/// long (more than 6 digits).
+fn split_decimal(text: &str) -> Option<(bool, String, i64)> {
+    let (neg, body) = match text.as_bytes().first()? {
+        b'+' => (false, &text[1..]),
+        b'-' => (true, &text[1..]),
+        _ => (false, text),
+    };
+    let (mant, exp) = match body.find(['e', 'E']) {
+        Some(i) => (&body[..i], &body[i + 1..]),
+        None => (body, ""),
+    };
+    let mut e: i64 = 0;
+    if !exp.is_empty() {
+        let (eneg, ed) = match exp.as_bytes()[0] {
+            b'+' => (false, &exp[1..]),
+            b'-' => (true, &exp[1..]),
+            _ => (false, exp),
+        };
+        let ed = ed.trim_start_matches('0');
+        if ed.len() > 6 {
+            return None;
+        }
+        let v: i64 = if ed.is_empty() { 0 } else { ed.parse().ok()? };
+        e = if eneg { -v } else { v };
+    }
+    let (ip, fp) = match mant.find('.') {
+        Some(i) => (&mant[..i], &mant[i + 1..]),
+        None => (mant, ""),
+    };
+    let fp = fp.trim_end_matches('0');
+    let mut digits = String::with_capacity(ip.len() + fp.len());
+    digits.push_str(ip);
+    digits.push_str(fp);
+    e -= fp.len() as i64;
+    let d = digits.trim_start_matches('0').to_string();
+    Some((neg, d, e))
+}
+
+/// Compare `d * 10^e` with `c * 2^j` exactly.
+fn cmp_dec_bin(d: &BigUint, e: i64, c: &BigUint, j: i64) -> std::cmp::Ordering {
+    let mut left = d.clone();
+    let mut right = c.clone();
+    if e >= 0 {
+        left = left.mul_pow10(e as u32);
+    } else {
+        right = right.mul_pow10((-e) as u32);
+    }
+    if j >= 0 {
+        right = right.shl(j as u32);
+    } else {
+        left = left.shl((-j) as u32);
+    }
+    left.cmp_mag(&right)
+}
+
+/// Exact, arbitrary-precision check that `bits` (an IEEE-754 value of format
+/// `fmt`, in the low bits of the `u64`) is the round-to-nearest, ties-to-even
+/// result for the decimal literal `text` (float grammar, no `_`). Independent of
+/// any float parsing routine: the literal is held as `digits·10^e`, the candidate
+/// as `m·2^k`, and the literal is compared with the two half-way points around
+/// the candidate by cross-multiplication. `None` = cannot decide (NaN candidate,
+/// not a decimal literal, exponent literal longer than 6 digits).
+pub fn decimal_rounds_to(text: &str, bits: u64, fmt: FloatFormat) -> Option<bool> {
+    use std::cmp::Ordering::*;
+    if !decimal_float_grammar(text) {
+        return None;
+    }
+    let (neg, dstr, e) = split_decimal(text)?;
+    let p = fmt.frac_bits + 1; // precision
+    let bias: i64 = (1i64 << (fmt.exp_bits - 1)) - 1;
+    let sign_bit = (bits >> (fmt.frac_bits + fmt.exp_bits)) & 1 == 1;
+    let be = ((bits >> fmt.frac_bits) & ((1u64 << fmt.exp_bits) - 1)) as i64;
+    let frac = bits & ((1u64 << fmt.frac_bits) - 1);
+    let max_be: i64 = (1i64 << fmt.exp_bits) - 1;
+    if sign_bit != neg {
+        return Some(false);
+    }
+    if be == max_be && frac != 0 {
+        return None; // NaN
+    }
+    let d = BigUint::from_decimal(&dstr)?;
+    if d.is_zero() {
+        return Some(be == 0 && frac == 0);
+    }
+    // overflow threshold: half an ulp above the largest finite value
+    let m_max: u128 = (1u128 << p) - 1;
+    let k_max: i64 = (max_be - 1) - bias - (p as i64 - 1);
+    let inf_threshold = BigUint::from_u128(2 * m_max + 1);
+    if be == max_be {
+        return Some(cmp_dec_bin(&d, e, &inf_threshold, k_max - 1) != Less);
+    }
+    let (m, k): (u128, i64) = if be == 0 {
+        (frac as u128, 1 - bias - (p as i64 - 1))
+    } else {
+        ((1u128 << (p - 1)) | frac as u128, be - bias - (p as i64 - 1))
+    };
+    let even = m & 1 == 0;
+    // upper half-way point
+    let hi = BigUint::from_u128(2 * m + 1);
+    match cmp_dec_bin(&d, e, &hi, k - 1) {
+        Greater => return Some(false),
+        Equal if !even => return Some(false),
+        _ => {}
+    }
+    if m == 0 {
+        return Some(true); // anything from 0 up to (and, being even, including) half the least subnormal
+    }
+    // lower half-way point: the gap below a power of two (other than the least normal) is half as wide
+    let (lo, lo_k) = if be > 1 && frac == 0 {
+        (BigUint::from_u128(4 * m - 1), k - 2)
+    } else {
+        (BigUint::from_u128(2 * m - 1), k - 1)
+    };
+    match cmp_dec_bin(&d, e, &lo, lo_k) {
+        Less => Some(false),
+        Equal => Some(even),
+        Greater => Some(true),
+    }
+}
+
+impl FloatReading {
+    /// Confirm with exact arithmetic that [`FloatReading::f64_bits`] /
+    /// [`FloatReading::f32_bits`] (which come from Rust's `str::parse`) are the
+    /// correctly rounded values of the literal. `None` for non-decimal kinds or
+    /// undecidable inputs.
+    pub fn confirmed_exactly(&self) -> Option<bool> {
+        match &self.kind {
+            FloatKind::Decimal(s) => {
+                let a = decimal_rounds_to(s, self.f64_bits(), F64_FORMAT)?;
+                let b = decimal_rounds_to(s, self.f32_bits() as u64, F32_FORMAT)?;
+                Some(a && b)
+            }
+            _ => None,
+        }
+    }
+}
+
+/// Exact decimal expansion (no exponent) of the half-way point between the
+/// finite positive value with the given bits and its successor — the hardest
+/// literals for a decimal-to-binary conversion. The result can have several
+/// hundred digits.
+pub fn midpoint_above(bits: u64, fmt: FloatFormat) -> Option<String> {
+    let p = fmt.frac_bits + 1;
+    let bias: i64 = (1i64 << (fmt.exp_bits - 1)) - 1;
+    let be = ((bits >> fmt.frac_bits) & ((1u64 << fmt.exp_bits) - 1)) as i64;
+    let frac = bits & ((1u64 << fmt.frac_bits) - 1);
+    if be == (1i64 << fmt.exp_bits) - 1 || bits >> (fmt.frac_bits + fmt.exp_bits) != 0 {
+        return None;
+    }
+    let (m, k): (u128, i64) =
+        if be == 0 { (frac as u128, 1 - bias - (p as i64 - 1)) } else { ((1u128 << (p - 1)) | frac as u128, be - bias - (p as i64 - 1)) };
+    let c = BigUint::from_u128(2 * m + 1);
+    let j = k - 1;
+    if j >= 0 {
+        return Some(c.shl(j as u32).to_radix(10, false));
+    }
+    // c / 2^n = c * 5^n / 10^n
+    let n = (-j) as u32;
+    let mut v = c;
+    for _ in 0..n {
+        v.mul_small_add(5, 0);
+    }
+    let digits = v.to_radix(10, false);
+    let n = n as usize;
+    let s = if digits.len() > n {
+        format!("{}.{}", &digits[..digits.len() - n], &digits[digits.len() - n..])
+    } else {
+        format!("0.{}{}", "0".repeat(n - digits.len()), digits)
+    };
+    Some(s)
+}
+
 // ===================================================================== base64
 
 /// Verdict of the reference base64 decoder.
@@ -871,6 +1114,38 @@ mod tests {
         assert_eq!(b.checked_sub(&BigUint::from_u128(1)).unwrap().to_u128(), Some(u128::MAX));
         assert_eq!(BigUint::from_u128(255).to_radix(2, false), "11111111");
         assert_eq!(b.bit_len(), 129);
+    }
+
+    #[test]
+    fn exact_rounding() {
+        for t in ["1", "0.1", "1e23", "8.41e21", "9007199254740993", "1.7976931348623157e308", "1.7976931348623158e308",
+                  "1.797693134862315807e308", "1.7976931348623159e308", "4.9e-324", "2.4703282292062327e-324", "2.4703282292062328e-324",
+                  "2.47e-324", "1e-400", "1e400", "0.0", "-0", "2.2250738585072011e-308", "2.2250738585072014e-308",
+                  "1.00000005960464477539062500000001", "1.000000059604644775390625", "16777217", "3.4028235677973366e38", "3.4028235677973367e38",
+                  "1.401298464324817e-45", "7.006492321624085e-46", "7.006492321624086e-46", "123456789012345678901234567890e-50"] {
+            let f64v: f64 = t.parse().unwrap();
+            let f32v: f32 = t.parse().unwrap();
+            assert_eq!(decimal_rounds_to(t, f64v.to_bits(), F64_FORMAT), Some(true), "f64 {t}");
+            assert_eq!(decimal_rounds_to(t, f32v.to_bits() as u64, F32_FORMAT), Some(true), "f32 {t}");
+            // neighbours are not the rounding result (unless zero/inf saturate the same way)
+            if f64v.is_finite() && f64v != 0.0 {
+                assert_eq!(decimal_rounds_to(t, f64v.to_bits() + 1, F64_FORMAT), Some(false), "f64+1 {t}");
+                assert_eq!(decimal_rounds_to(t, f64v.to_bits() - 1, F64_FORMAT), Some(false), "f64-1 {t}");
+            }
+            if f32v.is_finite() && f32v != 0.0 {
+                assert_eq!(decimal_rounds_to(t, (f32v.to_bits() + 1) as u64, F32_FORMAT), Some(false), "f32+1 {t}");
+                assert_eq!(decimal_rounds_to(t, (f32v.to_bits() - 1) as u64, F32_FORMAT), Some(false), "f32-1 {t}");
+            }
+        }
+        // midpoints: exact tie goes to the even neighbour
+        for bits in [1u64, 2, 0x000F_FFFF_FFFF_FFFF, 0x0010_0000_0000_0000, 0x3FF0_0000_0000_0000, 0x3FF0_0000_0000_0001, 0x7FEF_FFFF_FFFF_FFFE] {
+            let mid = midpoint_above(bits, F64_FORMAT).unwrap();
+            let parsed: f64 = mid.parse().unwrap();
+            let expect = if bits & 1 == 0 { bits } else { bits + 1 };
+            assert_eq!(parsed.to_bits(), expect, "std parse of midpoint above {bits:#x}");
+            assert_eq!(decimal_rounds_to(&mid, expect, F64_FORMAT), Some(true));
+            assert_eq!(decimal_rounds_to(&mid, expect ^ 1, F64_FORMAT).map(|b| b && (expect ^ 1) != expect), Some(false));
+        }
     }
 
     #[test]
